@@ -68,6 +68,7 @@ def run_root(P, key, contract=None, e3=True, time_budget=120, I=None, cut_set=No
     res = {'root': key, 'ok': True, 'error': None}
     try:
         args = root_args(I, inst, st, contract)
+        res['args'] = args
         outs = I.run_root(inst, args, st, key)
         res['outcomes'] = len(outs)
         res['results'] = outs
